@@ -373,11 +373,28 @@ func runHist(spec *HistSpec) Result {
 		runtime.GOMAXPROCS(spec.Procs)
 	}
 	h := &histRun{chIndex: map[chan lua.LValue]int{}}
+	// the channels are made by the library itself (channel.make) in a set-up state
+	L0 := lua.NewState()
 	for i, c := range spec.Caps {
-		ch := make(chan lua.LValue, c)
+		src := fmt.Sprintf("return channel.make(%d)", c)
+		if c == 0 && i%2 == 0 {
+			src = "return channel.make()"
+		}
+		if err := L0.DoString(src); err != nil {
+			L0.Close()
+			return Result{Status: "error", Msg: "channel.make failed: " + trunc(err.Error(), 300)}
+		}
+		lc, ok := L0.Get(-1).(lua.LChannel)
+		L0.Pop(1)
+		if !ok {
+			L0.Close()
+			return Result{Status: "error", Msg: "channel.make did not return a channel"}
+		}
+		ch := (chan lua.LValue)(lc)
 		h.chs = append(h.chs, ch)
 		h.chIndex[ch] = i
 	}
+	L0.Close()
 	// identical scripts share one compiled prototype (as the README recommends)
 	protos := map[string]*lua.FunctionProto{}
 	for _, th := range spec.Threads {
